@@ -154,3 +154,135 @@ Print Assumptions C02_source_constants.
 Print Assumptions C02_example_wf.
 Print Assumptions C02_example_cut.
 Print Assumptions C02_example_cut_values.
+
+
+(* ====================================================================================
+   END TO END for encrypted archives without compression (ComposeRepair.v):
+   block list -> plain = body bl ++ trailer -> encryption writer fed ANY pieces ->
+   wire -> cut at ANY byte n of the WIRE -> fail-safe decryptor (both modes) -> repair.
+   Composition of C01 (enc_writer_canonical), C03/C04 (fs_*_refines, fs_*_truncated) and the
+   theorems above; the decryptor is a read-only stream, the repair theorems are transferred
+   to read-only sources in ComposeRdOnly.v (repair never seeks: `repair_sim`).
+   Side condition: the block list ends with EndOfArchiveData, or nothing at all follows the
+   blocks — not even `junk`, the tag bytes of a short last chunk that the unauthenticated
+   loader decrypts as data (a finalized archive always satisfies the first).  Fewer than
+   2^32 - 1 chunks (u32 counter), as in C03/C04. *)
+From MLA Require Import EncLayer EncAuthTrunc EncWriter Run ComposeRdOnly ComposeRepair.
+
+Theorem C02_repair_encrypted_cut_sound :
+  forall FNMAX CACHE : N, FNMAX < 2 ^ 64 -> 0 < CACHE ->
+  forall TS TC TA TE : N,
+    TS <> TC /\ TS <> TA /\ TS <> TE /\ TC <> TA /\ TC <> TE /\ TA <> TE ->
+  forall H : bytes -> bytes, (forall x, len (H x) = 32) ->
+  forall CHUNK TAG CIPHERBUF : N, 0 < CHUNK -> 0 < TAG ->
+  forall (ks : N -> N -> N) (tagc : N -> bytes -> bytes), (forall i c, len (tagc i c) = TAG) ->
+  forall (bl : list block) (trailer : bytes),
+    wf_blocks FNMAX H bl ->
+    In BEnd bl \/ trailer ++ junk CHUNK ks tagc (body TS TC TA TE bl ++ trailer) = [] ->
+  forall pieces : list bytes, concat pieces = body TS TC TA TE bl ++ trailer ->
+  forall (fuelw : nat) (s : ewstate),
+    ew_archive CHUNK CIPHERBUF ks tagc fuelw pieces = Ok s ->
+    len (ew_out s) / (CHUNK + TAG) + 2 <= 2 ^ 32 ->
+  forall (n : N) (unauth : bool) (fuel : nat),
+    (N.to_nat (len (body TS TC TA TE bl ++ trailer) + TAG) < fuel)%nat ->
+    exists es b,
+      fs_open CHUNK TAG ks (Cursor (takeN n (ew_out s))) 0 = (es, Ok b) /\
+    exists (status : fstatus) (unfinished : list bytes) (out : wstate) (obl : list block),
+      repair FNMAX CACHE TS TC TA TE H (FsEnc CHUNK TAG ks tagc unauth (Cursor (takeN n (ew_out s))))
+             fuel es w_init = Ok (status, unfinished, out) /\
+      good_output FNMAX TS TC TA TE H out obl /\
+      (forall g, In g (files_of obl) ->
+         exists f, In f (files_of bl) /\ f_name f = f_name g /\ prefix (f_data g) (f_data f)) /\
+      (forall name, prefix (content_of (files_of obl) name) (content_of (files_of bl) name)) /\
+      (forall g, In g (files_of obl) -> ~ In (f_name g) unfinished ->
+         exists f, In f (files_of bl) /\ f_name f = f_name g /\ f_data f = f_data g /\ f_ended f = true) /\
+      (status = FEndOfData ->
+         unfinished = [] /\ Forall2 same (files_of bl) (files_of obl) /\
+         (forall f, In f (files_of bl) -> f_ended f = true)) /\
+      (status = FEndOfData \/ status = FEofNextBlock).
+Proof. exact repair_encrypted_cut_sound. Qed.
+
+(* the general form behind it: ANY read-only source delivering a prefix of the block stream
+   (RdRefines: reads only, short reads allowed, no seek required) *)
+Theorem C02_repair_sound_read_only :
+  forall FNMAX CACHE : N, FNMAX < 2 ^ 64 -> 0 < CACHE ->
+  forall TS TC TA TE : N,
+    TS <> TC /\ TS <> TA /\ TS <> TE /\ TC <> TA /\ TC <> TE /\ TA <> TE ->
+  forall H : bytes -> bytes, (forall x, len (H x) = 32) ->
+  forall (S : Stream) (w : bytes) (I : st S -> N -> Prop), EncAuthFs.RdRefines (rd S) w I ->
+  forall (bl : list block) (trailer : bytes),
+    wf_blocks FNMAX H bl -> In BEnd bl \/ trailer = [] ->
+    prefix w (body TS TC TA TE bl ++ trailer) ->
+  forall s0 : st S, I s0 0 -> forall fuel : nat, (N.to_nat (len w) < fuel)%nat ->
+    exists (status : fstatus) (unfinished : list bytes) (out : wstate) (obl : list block),
+      repair FNMAX CACHE TS TC TA TE H S fuel s0 w_init = Ok (status, unfinished, out) /\
+      good_output FNMAX TS TC TA TE H out obl /\
+      (forall g, In g (files_of obl) ->
+         exists f, In f (files_of bl) /\ f_name f = f_name g /\ prefix (f_data g) (f_data f)) /\
+      (forall name, prefix (content_of (files_of obl) name) (content_of (files_of bl) name)) /\
+      (forall g, In g (files_of obl) -> ~ In (f_name g) unfinished ->
+         exists f, In f (files_of bl) /\ f_name f = f_name g /\ f_data f = f_data g /\ f_ended f = true) /\
+      (status = FEndOfData ->
+         unfinished = [] /\ Forall2 same (files_of bl) (files_of obl) /\
+         (forall f, In f (files_of bl) -> f_ended f = true)) /\
+      (status = FEndOfData \/ status = FEofNextBlock).
+Proof. exact repair_sound_rd. Qed.
+
+(* non-vacuity with the toy cipher, CHUNK = 32, TAG = 4, CIPHERBUF = 8: the archive of the
+   example above (185 bytes), handed to the encryption writer in three pieces, one empty;
+   209 wire bytes in 6 chunks *)
+Definition ex_pieces : list bytes := [takeN 50 ex_stream; []; dropN 50 ex_stream].
+Definition ex_ew : ewstate :=
+  match ew_archive 32 8 toy_ks (toy_tag 4) 200 ex_pieces with Ok s => s | _ => ew_init end.
+Lemma ex_ew_ok : ew_archive 32 8 toy_ks (toy_tag 4) 200 ex_pieces = Ok ex_ew.
+Proof. vm_compute. reflexivity. Qed.
+Lemma ex_pieces_ok : concat ex_pieces = body 0 1 254 255 ex_bl ++ ex_trailer.
+Proof. vm_compute. reflexivity. Qed.
+
+(* cut at wire byte 140: chunks 0-2 complete, the ciphertext of chunk 3 complete, its tag missing *)
+Example C02_example_encrypted_cut : forall unauth : bool,
+  exists es b unfinished out,
+    fs_open 32 4 toy_ks (Cursor (takeN 140 (ew_out ex_ew))) 0 = (es, Ok b) /\
+    repair 48 4 0 1 254 255 ex_H (FsEnc 32 4 toy_ks (toy_tag 4) unauth (Cursor (takeN 140 (ew_out ex_ew))))
+           300 es w_init = Ok (FEofNextBlock, unfinished, out) /\
+    w_final out = true.
+Proof.
+  intros unauth.
+  destruct (C02_repair_encrypted_cut_sound 48 4 ltac:(lia) ltac:(lia) 0 1 254 255
+              ltac:(repeat split; discriminate) ex_H ex_H_len 32 4 8 ltac:(lia) ltac:(lia)
+              toy_ks (toy_tag 4) (len_toy_tag 4) ex_bl ex_trailer C02_example_wf
+              (or_introl ex_bl_end) ex_pieces ex_pieces_ok 200%nat ex_ew ex_ew_ok
+              ltac:(vm_compute; discriminate) 140 unauth 300%nat ltac:(vm_compute; lia))
+    as (es & b & Ho & status & unf & out & obl & Hr & (Hfin & _) & _).
+  assert (Hs : status = FEofNextBlock).
+  { assert (Hv : match fs_open 32 4 toy_ks (Cursor (takeN 140 (ew_out ex_ew))) 0 with
+                 | (es', _) =>
+                   match repair 48 4 0 1 254 255 ex_H
+                           (FsEnc 32 4 toy_ks (toy_tag 4) unauth (Cursor (takeN 140 (ew_out ex_ew)))) 300 es' w_init with
+                   | Ok (s, _, _) => s = FEofNextBlock | _ => False end
+                 end) by (destruct unauth; vm_compute; reflexivity).
+    rewrite Ho, Hr in Hv. exact Hv. }
+  subst status. exists es, b, unf, out. auto.
+Qed.
+(* what comes out at that cut: authenticated mode stops after chunk 2 (96 bytes: inside the
+   EndOfFile block of "a": both files unfinished); unauthenticated mode also delivers the
+   32 bytes of chunk 3 ("a" complete, "b" unfinished) *)
+Example C02_example_encrypted_cut_values :
+  (forall unauth,
+   match fs_open 32 4 toy_ks (Cursor (takeN 140 (ew_out ex_ew))) 0 with
+   | (es, Ok _) =>
+     match repair 48 4 0 1 254 255 ex_H
+             (FsEnc 32 4 toy_ks (toy_tag 4) unauth (Cursor (takeN 140 (ew_out ex_ew)))) 300 es w_init with
+     | Ok (status, unfinished, out) =>
+         status = FEofNextBlock /\ w_files out = [([97], 0); ([98], 1)] /\ w_final out = true /\
+         unfinished = if unauth then [[98]] else [[97]; [98]]
+     | _ => False
+     end
+   | _ => False
+   end).
+Proof. intros [|]; vm_compute; repeat split; reflexivity. Qed.
+
+Print Assumptions C02_repair_encrypted_cut_sound.
+Print Assumptions C02_repair_sound_read_only.
+Print Assumptions C02_example_encrypted_cut.
+Print Assumptions C02_example_encrypted_cut_values.
